@@ -197,6 +197,33 @@ def check(ctx, rep):
                                 "" if ok else "request bytes are not decoded as UTF-8 with surrogateescape",
                                 key=f"R06c|{f.qualname}|decode|{recv[:30]}")
 
+    # decode after split: structural parsing must see the still-encoded text
+    for P in protos:
+        h = prog.resolve_method(P, "handle")
+        if h is None or h.cls is not P:
+            continue
+        problems = []
+        n_split = 0
+        for n in ast.walk(h.node):
+            if isinstance(n, ast.Call):
+                d = dotted(n.func) or ""
+                is_split = d.split(".")[-1] in ("urlparse", "urlsplit", "parse_qs", "parse_qsl") or \
+                    (isinstance(n.func, ast.Attribute) and n.func.attr in ("split", "partition") and n.args and isinstance(n.args[0], ast.Constant)
+                     and n.args[0].value in ("?", "#", "&", " ", "="))
+                if not is_split:
+                    continue
+                n_split += 1
+                src = n.args[0] if d.split(".")[-1] in ("urlparse", "urlsplit", "parse_qs", "parse_qsl") and n.args else (n.func.value if isinstance(n.func, ast.Attribute) else None)
+                if src is None:
+                    continue
+                full = expand_ast(src, h)
+                if any(isinstance(x, ast.Call) and (dotted(x.func) or "").split(".")[-1].startswith("unquote") for x in ast.walk(full)):
+                    problems.append(f"`{norm(n)[:50]}` parses text that was already percent-decoded: an encoded '?', '#' or space in a name or query becomes a delimiter "
+                                    "(the object/search string differs from what the other protocols see)")
+        if n_split:
+            rep.add("R06c", f"{h.qualname}: percent-decoding happens after structural splitting", not problems, ctx.where(h), "; ".join(sorted(set(problems))),
+                    key=f"R06c|{h.qualname}|order")
+
     # ------------------------------------------------------------------ R06d
     for P in protos:
         for mname in ("adjustmimetype", "adjust_mimetype"):
